@@ -48,7 +48,11 @@ fn show_line(g: Option<GrepLine>) -> String {
                     s
                 }
             };
-            format!("ok some {gt} {lt} {} {n} {} {subs}", hex(&g.path), hex(&g.code))
+            format!(
+                "ok some {gt} {lt} {} {n} {} {subs}",
+                hex(&g.path),
+                hex(&g.code)
+            )
         }
     }
 }
